@@ -143,6 +143,19 @@ PROPERTIES = {
                        "position, carried fields included (A4).",
         "undecided": "exactness of the carried index as a number",
     },
+    "C12": {
+        "level": "other",
+        "rules": ["G8"] + a_rules(("common.rs",), ["A4", "A5", "A7", "A9"]),
+        "explanation": "Decided (one clause only): 'contain every non-Equal op exactly once, unchanged and in order'.  In "
+                       "group_diff_ops every DiffOp that is constructed and every op field that is written in place belongs to "
+                       "an Equal op; everything pushed into a group is the iterated op itself or a freshly cut Equal piece; "
+                       "every iteration of the loop over the ops pushes, so no op is skipped (G8: MIR of common::"
+                       "group_diff_ops); the cut Equal pieces take old-side fields from old-side values and new-side fields "
+                       "from new-side values (A4/A5/A7/A9 in common.rs).  The amounts of context (min(n, available), > 2n, "
+                       "which groups merge) are arithmetic over run lengths and are NOT examined.",
+        "undecided": "all context-size clauses (min(n, available), interior runs at most 2n, when two changes share a group), "
+                     "'never consist of Equal ops only'",
+    },
     "C13": {
         "level": "other",
         "rules": ["F4", "F3", "F22", "B4"] + a_rules(("iter.rs", "types.rs")),
@@ -200,8 +213,6 @@ PROPERTIES = {
 }
 
 NOT_APPLICABLE = {
-    "C12": "grouping: every clause is arithmetic over run lengths and the radius n (saturating_sub, > 2n); no clause is a "
-           "shape-of-code fact, so no sound static rule in reach decides it",
     "C18": "get_close_matches: soundness of two numeric upper bounds and a float ranking; quantifies over values",
     "C19": "work bound: a complexity bound over runtime quantities; no sound static cost analysis in reach for the D loop",
 }
